@@ -97,6 +97,7 @@ def strategy(tier):
         'kind': st.just('value'), 'v': gens.any_value(S, comments=True),
         'width': st.sampled_from([10, 30, 79]), 'indent': st.sampled_from([2, 4]),
         'style': st.sampled_from(names), 'mode': st.sampled_from(MODES), 'end': st.sampled_from(['\n', '', 'END']),
+        'sort': st.booleans(),
     })
     doc = st.fixed_dictionaries({
         'kind': st.just('doc'),
@@ -154,7 +155,7 @@ def oracle(case):
             from prettyprinter import cpprint, python_to_sdocs
             v = values.build(case['v'])
             cfg = dict(indent=case['indent'], width=case['width'], depth=None, ribbon_width=case['width'],
-                       max_seq_len=1000, sort_dict_keys=False)
+                       max_seq_len=1000, sort_dict_keys=bool(case.get('sort')))
             import warnings
             with warnings.catch_warnings():
                 warnings.simplefilter('ignore')
@@ -162,7 +163,7 @@ def oracle(case):
                 s = io.StringIO()
                 try:
                     cpprint(v, stream=s, indent=case['indent'], width=case['width'], ribbon_width=case['width'],
-                            style=style, end=case['end'])
+                            style=style, end=case['end'], sort_dict_keys=bool(case.get('sort')))
                 except Exception as e:
                     return core.viol('render-raised', 'style %s mode %s: %r' % (case['style'], mode, e), [case['style']])
             written = s.getvalue()
